@@ -16,8 +16,7 @@ theorem DepthInv_seqM {cfg : Cfg} {r : Out × St} {k : St → Out × St} (h1 : D
   · exact h1
 
 theorem DepthInv_raise {cfg : Cfg} (ctx : Ctx) (k : Kind) {s : St} (h : DepthInv cfg s) :
-    DepthInv cfg (raise cfg ctx k s).2 := by
-  unfold raise; cases ctx <;> simp <;> (try split) <;> exact h
+    DepthInv cfg (raise cfg ctx k s).2 := h
 
 theorem DepthInv_tick {cfg : Cfg} (ctx : Ctx) {s : St} (h : DepthInv cfg s) : DepthInv cfg (tick cfg ctx s).2 := by
   unfold tick
@@ -117,14 +116,15 @@ theorem exec_DepthInv (cfg : Cfg) (fuel : Nat) (ctx : Ctx) (sh : Sh) (s : St) (h
       exact DepthInv_seqM (DepthInv_pushFrame ctx h) fun s1 h1 =>
         DepthInv_seqM (DepthInv_pushChecked ctx locals h1) fun s2 h2 =>
         DepthInv_seqM (DepthInv_ticksN ctx _ h2) fun s3 h3 =>
-        DepthInv_seqM (ih ctx body s3 h3) fun s4 h4 => DepthInv_leave h4 h _
+        DepthInv_seqM (ih ctx body s3 h3) fun s4 h4 => DepthInv_seqM (DepthInv_tick ctx h4) fun s5 h5 => DepthInv_leave h5 h _
     | recur locals => exact ih ctx _ s h
     | crecur => exact ih ctx _ s h
     | cb k body =>
       cases k with
       | zero => exact h
-      | succ k => exact DepthInv_seqM (ih ctx _ s h) (fun s1 h1 => ih ctx _ s1 h1)
+      | succ k => exact DepthInv_seqM (DepthInv_tick ctx h) fun s0 h0 => DepthInv_seqM (ih ctx _ s0 h0) (fun s1 h1 => ih ctx _ s1 h1)
     | safe body =>
+      refine DepthInv_seqM (DepthInv_tick ctx h) (fun s h => ?_)
       simp only
       split
       · exact h
